@@ -88,9 +88,11 @@ int64_t evaluate_bitwise_binary(const std::string &op, int64_t left,
     } else if (op == "^") {
         return left ^ right;
     } else if (op == "<<") {
-        return left << right;
+        // shift in the unsigned domain with the count reduced modulo 64: defined
+        // for negative operands and any count (matches what the hardware did)
+        return static_cast<int64_t>(static_cast<uint64_t>(left) << (right & 63));
     } else if (op == ">>") {
-        return left >> right;
+        return left >> (right & 63);
     }
     throw std::runtime_error("Unknown bitwise operator: " + op);
 }
